@@ -45,7 +45,11 @@ Next == \E r \in InputRels(P) : \E t \in Tuples(P, r) : AddInput(r, t)
 Spec == Init /\ [][Next]_vars
 
 --------------------------------------------------------------------------------
-Monotone(Q) == LET X == Elaborate(Q) IN \A j \in 1..Len(X.rules) : \A d \in RuleDeps(X.rules[j]) : ~d[2]
+(* no negation / aggregation, and lattice values (if any) are only read through upward-closed tests (corpus tag `mono`): *)
+(* a rule that copies a lattice value or tests it for equality is as non-monotone as a negation                        *)
+Monotone(Q) == LET X == Elaborate(Q) IN
+   /\ \A j \in 1..Len(X.rules) : \A d \in RuleDeps(X.rules[j]) : ~d[2]
+   /\ (\E i \in 1..Len(Q.rels) : Q.rels[i].kind = "lat") => (\E t \in 1..Len(Q.tags) : Q.tags[t] = "mono")
 
 (* theorems of the declarative semantics, checked on every enumerated database *)
 Theorems ==
